@@ -186,7 +186,8 @@ def execute(scn, sched=None, threads=None, jitter=None, timeout_ms=NORMAL_MS, bi
             env["STYLUA_VERIF_JITTER"] = str(jitter)
         if extra_env:
             env.update(extra_env)
-        args = (["--check"] if scn["mode"] == "check" else []) + (["--num-threads", str(threads)] if threads else []) + ["--"] + scn["argv"]
+        args = ((["--check"] if scn["mode"] == "check" else []) + (["--output-format", scn["output_format"]] if scn.get("output_format") else [])
+                + (["--num-threads", str(threads)] if threads else []) + ["--"] + scn["argv"])
         run = clilib.run_cli(args, s.root, s.env(env), timeout=wall, binary=binary)
         files = {}
         for dp, _, fns in os.walk(s.root):
@@ -207,7 +208,7 @@ def judge(scn, exp, res, how):
     dec_ = [f"{cls} {what}" for _, cls, what in res.events
             if len(what.split()) == 3 and what.split()[1].lstrip("-").isdigit() and what.split()[2].lstrip("-").isdigit()
             and int(what.split()[2]) < int(what.split()[1])]
-    case = {"scenario": {k: scn[k] for k in ("name", "mode", "items", "files", "argv", "cfgs", "links", "compare_only") if k in scn}, "how": how}
+    case = {"scenario": {k: scn[k] for k in ("name", "mode", "items", "files", "argv", "cfgs", "links", "compare_only", "output_format") if k in scn}, "how": how}
     if res.rc != exp_rc:
         kind = "masked" if (res.rc is not None and res.rc < exp_rc) else "wrong"
         diag = f"; the trace shows the status DEcreasing at: {dec_}" if dec_ else ""
@@ -573,6 +574,13 @@ def run(tier, seed):
                          "enum.executions": out["evaluations"]})
         # ---------------- (b)
         sweep_scns = [make_scenario(sp, mode, ref) for sp in ("UmU", "UXm", "UCm", "mUU") for mode in ("check", "write")]
+        # the status does not depend on how differences are printed: the small check-mode sets in every output format
+        for sp in ("UmU", "UXm", "UCm", "mUU", "XU", "UUX"):
+            for fmt in ("Summary", "Json", "Unified"):
+                sc = make_scenario(sp, "check", ref)
+                sc["output_format"] = fmt
+                sc["name"] = f"{sp}/check/{fmt}"
+                sweep_scns.append(sc)
         prng = clilib.Rng(190019)  # pinned trees
         sweep_scns += [with_mode(big_tree(prng, 24, ref, "pinned"), m) for m in ("check", "write")]
         sweep_scns += [with_mode(big_tree(prng, 40, ref, "pinned"), m) for m in ("check", "write")]
@@ -587,6 +595,12 @@ def run(tier, seed):
         for j in range(1 if quick else 3):
             t = big_tree(srng, 20 + srng.below(21), ref, f"seed{seed}.{j}", configured=(j % 2 == 0))
             sweep_scns += [with_mode(t, m) for m in ("check", "write")]
+        for s0 in list(sweep_scns):
+            if s0["mode"] == "check" and "-pinned" in s0["name"] and not s0.get("output_format") and not s0.get("compare_only"):
+                s1 = dict(s0)
+                s1["output_format"] = "Summary" if len(s0["files"]) % 2 else "Json"
+                s1["name"] = s0["name"] + "/" + s1["output_format"]
+                sweep_scns.append(s1)
         threads_list = [1, 2, 3, 4, 8, 16] if quick else list(range(1, 17))
         reps = 2 if quick else 20
         jobs = []
@@ -617,7 +631,7 @@ def run(tier, seed):
             if not f and (r.rc != rr.rc or r.files != rr.files):
                 f = [{"oracle": "same-as-single-thread", "signature": "C19:differs-from-single-thread-run",
                       "detail": f"{scn['name']} threads={n} jitter={jit}: exit {r.rc} vs {rr.rc}",
-                      "case": {"scenario": {k: scn[k] for k in ("name", "mode", "items", "files", "argv", "cfgs", "links", "compare_only") if k in scn}, "how": f"threads={n} jitter={jit}"}}]
+                      "case": {"scenario": {k: scn[k] for k in ("name", "mode", "items", "files", "argv", "cfgs", "links", "compare_only", "output_format") if k in scn}, "how": f"threads={n} jitter={jit}"}}]
             return f
 
         with cf.ThreadPoolExecutor(max_workers=svlib.NCPU) as pool:
@@ -685,7 +699,7 @@ def run(tier, seed):
                 for (kind, frames), (scn, n, text) in reports.items():
                     out["findings"].append({"oracle": "thread-sanitizer", "signature": "C19:tsan:" + kind.replace(" ", "-") + ":" + "|".join(frames),
                                             "detail": f"{scn['name']} threads={n}: {text}",
-                                            "case": {"scenario": {k: scn[k] for k in ("name", "mode", "items", "files", "argv", "cfgs", "links", "compare_only") if k in scn}, "how": f"tsan threads={n}"}})
+                                            "case": {"scenario": {k: scn[k] for k in ("name", "mode", "items", "files", "argv", "cfgs", "links", "compare_only", "output_format") if k in scn}, "how": f"tsan threads={n}"}})
                 tsan_info = {"ran": True, "runs": ran, "distinct_reports": len(reports)}
                 counters["tsan.runs"] = ran
         # ---------------- (d) valgrind memcheck over the release binary (thorough): invalid reads / writes /
